@@ -181,7 +181,7 @@ def main(argv=None):
     undis = [o for o in obligations if o["status"] != "discharged" and not o["name"].endswith("/mustfail")]
     mustfail = [o for o in obligations if o["name"].endswith("/mustfail")]
     vacuous = [o for o in mustfail if o["status"] == "discharged"]
-    real_obs = [o for o in obligations if not o["name"].endswith("/mustfail") and not o.get("bounded")]
+    real_obs = [o for o in obligations if not o["name"].endswith("/mustfail") and not o.get("bounded") and not o.get("probe")]
 
     # ---- native: replay of counterexamples + random cross-check of the contracts on the real code
     replay_jobs = []
@@ -280,7 +280,7 @@ def main(argv=None):
     ev = {
         "property_id": pid, "tier": tier, "seed": seed, "level": level,
         "coverage": {
-            "obligations": len(real_obs), "discharged": discharged + sum(1 for _, o in known_hits if not o.get("bounded")),
+            "obligations": len(real_obs), "discharged": discharged + sum(1 for _, o in known_hits if not o.get("bounded") and not o.get("probe")),
             "unproved_sites": [{"obligation": o["name"], "why": o.get("where")} for o in unproved_hits],
             "discharged_by_backend": by_backend,
             "known_finding_obligations": len(known_hits),
